@@ -288,6 +288,19 @@ Definition parse_frac (s : bytes) : option Z :=
       else None
   end.
 
+(* fractionalSecondsLen (after fix: 537908ee1): '.' or ',' followed by one or more digits, else 0 *)
+Fixpoint count_digits (s : bytes) : nat :=
+  match s with c :: t => if is_digit c then S (count_digits t) else O | [] => O end.
+Definition frac_len (s : bytes) : nat :=
+  match s with
+  | c :: ds => if (Ascii.eqb c "." || Ascii.eqb c ",") then match count_digits ds with O => O | n => S n end else O
+  | [] => O
+  end.
+
+(* codes known to pbnjay's formatMap; the shorthands expandShorthands rewrites; anything else is ErrFormatUnsupported *)
+Definition strp_known (c : ascii) : bool :=
+  existsb (Ascii.eqb c) (B "aAbBhdefHIjmMpSyYzZ") || existsb (Ascii.eqb c) (B "cxXTDFRr") || Ascii.eqb c "%".
+
 (* the range checks time.Parse applies per field *)
 Definition upd (c : ascii) (v ns : Z) (acc : ptm) : option ptm :=
   if Ascii.eqb c "S" then
@@ -319,22 +332,24 @@ Definition set_field (c : ascii) (comp : bytes) (w : nat) (acc : ptm) : option p
 Inductive presult := POk (ns : Z) | PErr | POutOfModel.
 
 (* the parts loop of strptime_tz; a part's text runs to the first occurrence of its trailing literal,
-   or takes min(width, remaining) bytes when there is no trailing literal *)
+   or takes min(width, remaining) bytes when there is no trailing literal (plus, for %S, a fractional-seconds suffix);
+   a code outside formatMap is ErrFormatUnsupported (an error), e.g. %s and %1..%9 *)
 Fixpoint parse_parts (parts : list (ascii * bytes)) (inp : bytes) (acc : ptm) : option (option ptm) :=
   match parts with
   | [] => match inp with [] => Some (Some acc) | _ => Some None end
   | (c, lit) :: rest =>
       match code_width c with
-      | None => None
+      | None => if strp_known c then None else Some None
       | Some w =>
           match lit with
           | [] =>
               match inp with
               | [] => Some None
               | _ =>
-                  let comp := firstn w inp in
+                  let w' := if Ascii.eqb c "S" then (w + frac_len (skipn w inp))%nat else w in
+                  let comp := firstn w' inp in
                   match set_field c comp w acc with
-                  | Some acc' => parse_parts rest (skipn w inp) acc'
+                  | Some acc' => parse_parts rest (skipn w' inp) acc'
                   | None => Some None
                   end
               end
@@ -372,7 +387,12 @@ Definition assemble (a : ptm) : option Z :=
 (* strpntime(input, format) in UTC: nanoseconds since the epoch.
    Modelled domain: format = literal prefix, then numeric codes Y m d H M S j each followed by a literal whose
    first byte is not a digit (the last one may have none). *)
-Definition lit_ok (l : bytes) : bool := match l with [] => true | c :: _ => negb (is_digit c) && negb (Ascii.eqb c ".") && negb (Ascii.eqb c ",") end.
+Definition lit_head_ok (l : bytes) : bool := match l with [] => true | c :: _ => negb (is_digit c) && negb (Ascii.eqb c ".") && negb (Ascii.eqb c ",") end.
+(* the literal is handed to time.Parse as part of the LAYOUT, where digits (1 2 3 4 5 01.. 15 2006) and the words Jan Mon MST
+   PM pm are fields, not text (known finding strptime-literal-read-as-layout): literals with a digit or J M P p are outside the model *)
+Definition lit_plain (l : bytes) : bool :=
+  forallb (fun c => negb (is_digit c) && negb (existsb (Ascii.eqb c) ["J"; "M"; "P"; "p"])) l.
+Definition lit_ok (l : bytes) : bool := lit_head_ok l && lit_plain l.
 Fixpoint parts_in_model (ps : list (ascii * bytes)) : bool :=
   match ps with
   | [] => true
@@ -385,7 +405,8 @@ Definition strp_exact (inp f : bytes) : presult :=
   match fmt_parts (S (List.length f)) rest with
   | None => POutOfModel
   | Some parts =>
-      if negb (parts_in_model parts) then POutOfModel
+      if existsb (fun p => negb (strp_known (fst p))) parts then PErr    (* ErrFormatUnsupported, whatever the input *)
+      else if negb (parts_in_model parts) then POutOfModel
       else if negb (prefixb pre inp) then PErr
       else match parse_parts parts (skipn (List.length pre) inp) ptm0 with
            | None => POutOfModel
